@@ -42,18 +42,27 @@ def zero_based(lst):
     return [int(v) - 1 for v in lst]
 
 
-def observe(net, c, names, extra=True):
-    """Returns (m, x): m[name] = encoded value, x[name] = exception class name."""
+def observe(net, c, names, extra=True, reverse=False, encode=None):
+    """Returns (m, x): m[name] = encoded value, x[name] = exception class name.
+    reverse=True evaluates the same queries in the opposite order."""
     m, x = {}, {}
+    encode = encode or enc.arr
+    todo = []
 
     def rec(name, fn):
-        try:
-            v = fn()
-            if hasattr(v, "toarray"):
-                v = v.toarray()
-            m[name] = enc.arr(v)
-        except Exception as ex:
-            x[name] = type(ex).__name__
+        todo.append((name, fn))
+
+    def run():
+        for name, fn in (todo[::-1] if reverse else todo):
+            try:
+                v = fn()
+                if hasattr(v, "toarray"):
+                    v = v.toarray()
+                v = encode(v)
+                if v is not None:
+                    m[name] = v
+            except Exception as ex:
+                x[name] = type(ex).__name__
 
     for name in names:
         if hasattr(net, name):
@@ -70,6 +79,7 @@ def observe(net, c, names, extra=True):
                 sources=src, targets=tgt))
         for meth in ("nsi_degree", "nsi_indegree", "nsi_outdegree", "nsi_local_clustering"):
             rec(meth + "_tw2", lambda meth=meth: getattr(net, meth)(typical_weight=2.0))
+    run()
     return m, x
 
 
